@@ -120,4 +120,290 @@ theorem nextToken_regex (cls : Cls) (c : Cur) (lit rest : List Rune) (hwf : Rege
   rw [hc]
   simp [litStep, mkTok]
 
+
+/-! ## The other token kinds -/
+
+/-- `rest` does not continue an identifier -/
+def IdentStop (cls : Cls) (rest : List Rune) : Prop :=
+  ∀ r, rest.head? = some r → ¬ (cls.isLetter r = true ∨ cls.isDigit r = true ∨ r = cUS)
+
+theorem lexIdentLoop_run_lit (cls : Cls) (body : List Rune)
+    (hbody : ∀ r ∈ body, cls.isLetter r = true ∨ cls.isDigit r = true ∨ r = cUS)
+    (c : Cur) (acc rest : List Rune) (hstop : IdentStop cls rest) :
+    ∃ c', lexIdentLoop cls c acc (body ++ rest) = ⟨acc ++ body, c', rest, none⟩ := by
+  induction body generalizing c acc with
+  | nil =>
+    simp only [List.nil_append, List.append_nil]
+    cases rest with
+    | nil => exact ⟨c, rfl⟩
+    | cons r rs =>
+      unfold lexIdentLoop
+      rw [if_neg (hstop r rfl)]
+      exact ⟨c, rfl⟩
+  | cons r body ih =>
+    simp only [List.cons_append]
+    unfold lexIdentLoop
+    rw [if_pos (hbody r (by simp))]
+    obtain ⟨c', hc⟩ := ih (fun x hx => hbody x (by simp [hx])) (c.adv r) (acc ++ [r])
+    exact ⟨c', by rw [hc]; simp⟩
+
+/-- the first rune of an identifier / keyword-like literal as the lexer requires it -/
+structure IdentHead (cls : Cls) (r : Rune) : Prop where
+  notOp : operatorOf r = none
+  notSlash : r ≠ cSLASH
+  notQuote : r ≠ cQUOTE
+  notPipe : r ≠ cPIPE
+  notNL : r ≠ cNL
+  notSpace : cls.isSpace r = false
+  notDigit : cls.isDigit r = false
+  letter : cls.isLetter r = true
+
+/-- an identifier-like literal (IDENT, or BOOL when it spells `true` / `false`) -/
+structure IdentLitWF (cls : Cls) (lit : List Rune) : Prop where
+  ne : lit ≠ []
+  head : ∀ r, lit.head? = some r → IdentHead cls r
+  body : ∀ r ∈ lit.tail, cls.isLetter r = true ∨ cls.isDigit r = true ∨ r = cUS
+
+theorem nextToken_identlike (cls : Cls) (c : Cur) (lit rest : List Rune) (hwf : IdentLitWF cls lit)
+    (hstop : IdentStop cls rest) :
+    (nextToken cls c (lit ++ rest)).err = none ∧
+      (nextToken cls c (lit ++ rest)).tok.ty =
+        (if lit = litTrue ∨ lit = litFalse then TokenType.bool else TokenType.ident) ∧
+      (nextToken cls c (lit ++ rest)).tok.lit = lit ∧ (nextToken cls c (lit ++ rest)).rest = rest := by
+  cases lit with
+  | nil => exact absurd rfl hwf.ne
+  | cons r body =>
+    have hh := hwf.head r rfl
+    have hb := hwf.body
+    simp only [List.tail_cons] at hb
+    obtain ⟨c', hc⟩ := lexIdentLoop_run_lit cls body hb (c.adv r) [r] rest hstop
+    simp only [List.cons_append]
+    unfold nextToken
+    simp only [hh.notOp, hh.notSlash, hh.notQuote, hh.notPipe, hh.notNL, hh.notSpace, hh.notDigit,
+      hh.letter, if_false, if_true, Bool.false_eq_true, hc, asKeyword, List.singleton_append]
+    split <;> simp_all [mkTok]
+
+/-- `rest` does not continue a number -/
+def NumberStop (cls : Cls) (rest : List Rune) : Prop :=
+  ∀ r, rest.head? = some r → cls.isDigit r = false ∧ r ≠ cDOT
+
+theorem lexNumberLoop_digits (cls : Cls) (ds : List Rune) (hds : ∀ r ∈ ds, cls.isDigit r = true)
+    (c : Cur) (ty : TokenType) (acc : List Rune) (sd : Bool) (rest : List Rune) :
+    ∃ c', lexNumberLoop cls c ty acc sd (ds ++ rest) = lexNumberLoop cls c' ty (acc ++ ds) sd rest := by
+  induction ds generalizing c acc with
+  | nil => exact ⟨c, by simp⟩
+  | cons r ds ih =>
+    simp only [List.cons_append]
+    obtain ⟨c', hc⟩ := ih (fun x hx => hds x (by simp [hx])) (c.adv r) (acc ++ [r])
+    refine ⟨c', ?_⟩
+    conv => lhs; unfold lexNumberLoop
+    rw [if_pos (hds r (by simp)), hc]
+    simp
+
+theorem lexNumberLoop_stop (cls : Cls) (c : Cur) (ty : TokenType) (acc : List Rune) (sd : Bool)
+    (rest : List Rune) (hstop : NumberStop cls rest) :
+    lexNumberLoop cls c ty acc sd rest = ⟨ty, acc, c, rest, none⟩ := by
+  cases rest with
+  | nil => rfl
+  | cons r rs =>
+    obtain ⟨h1, h2⟩ := hstop r rfl
+    unfold lexNumberLoop
+    simp [h1, h2]
+
+/-- the first rune of a number literal as the lexer requires it -/
+structure DigitHead (cls : Cls) (r : Rune) : Prop where
+  notOp : operatorOf r = none
+  notSlash : r ≠ cSLASH
+  notQuote : r ≠ cQUOTE
+  notPipe : r ≠ cPIPE
+  notNL : r ≠ cNL
+  notSpace : cls.isSpace r = false
+  digit : cls.isDigit r = true
+
+theorem nextToken_int (cls : Cls) (c : Cur) (r : Rune) (ds rest : List Rune) (hh : DigitHead cls r)
+    (hds : ∀ x ∈ ds, cls.isDigit x = true) (hstop : NumberStop cls rest) :
+    (nextToken cls c (r :: ds ++ rest)).err = none ∧
+      (nextToken cls c (r :: ds ++ rest)).tok.ty = .int ∧
+      (nextToken cls c (r :: ds ++ rest)).tok.lit = r :: ds ∧
+      (nextToken cls c (r :: ds ++ rest)).rest = rest := by
+  obtain ⟨c', hc⟩ := lexNumberLoop_digits cls ds hds (c.adv r) .int [r] false rest
+  simp only [List.cons_append]
+  unfold nextToken
+  simp only [hh.notOp, hh.notSlash, hh.notQuote, hh.notPipe, hh.notNL, hh.notSpace, hh.digit,
+    if_false, if_true, Bool.false_eq_true, hc, lexNumberLoop_stop cls c' _ _ _ rest hstop]
+  simp [mkTok]
+
+theorem nextToken_decimal (cls : Cls) (c : Cur) (r : Rune) (ds fs rest : List Rune)
+    (hh : DigitHead cls r) (hds : ∀ x ∈ ds, cls.isDigit x = true)
+    (hfs : ∀ x ∈ fs, cls.isDigit x = true) (hdot : cls.isDigit cDOT = false)
+    (hstop : NumberStop cls rest) :
+    (nextToken cls c (r :: ds ++ cDOT :: fs ++ rest)).err = none ∧
+      (nextToken cls c (r :: ds ++ cDOT :: fs ++ rest)).tok.ty = .decimal ∧
+      (nextToken cls c (r :: ds ++ cDOT :: fs ++ rest)).tok.lit = r :: ds ++ cDOT :: fs ∧
+      (nextToken cls c (r :: ds ++ cDOT :: fs ++ rest)).rest = rest := by
+  obtain ⟨c1, hc1⟩ := lexNumberLoop_digits cls ds hds (c.adv r) .int [r] false (cDOT :: fs ++ rest)
+  obtain ⟨c2, hc2⟩ := lexNumberLoop_digits cls fs hfs (c1.adv cDOT) .decimal ([r] ++ ds ++ [cDOT]) true rest
+  have e : r :: ds ++ cDOT :: fs ++ rest = r :: (ds ++ (cDOT :: fs ++ rest)) := by simp
+  rw [e]
+  unfold nextToken
+  simp only [hh.notOp, hh.notSlash, hh.notQuote, hh.notPipe, hh.notNL, hh.notSpace, hh.digit,
+    if_false, if_true, Bool.false_eq_true, hc1]
+  have hstep : lexNumberLoop cls c1 .int ([r] ++ ds) false (cDOT :: fs ++ rest) =
+      lexNumberLoop cls (c1.adv cDOT) .decimal ([r] ++ ds ++ [cDOT]) true (fs ++ rest) := by
+    show lexNumberLoop cls c1 .int ([r] ++ ds) false (cDOT :: (fs ++ rest)) = _
+    conv => lhs; unfold lexNumberLoop
+    simp [hdot]
+  rw [hstep, hc2, lexNumberLoop_stop cls c2 _ _ _ rest hstop]
+  simp [mkTok]
+
+/-- `rest` ends the line: empty or starting with a newline -/
+def LineEnd (rest : List Rune) : Prop := rest = [] ∨ rest.head? = some cNL
+
+theorem lexLineLoop_line (body : List Rune) (hbody : ∀ r ∈ body, r ≠ cNL) (c : Cur)
+    (acc rest : List Rune) (hend : LineEnd rest) :
+    ∃ c', lexLineLoop c acc (body ++ rest) = ⟨acc ++ body, c', rest, none⟩ := by
+  induction body generalizing c acc with
+  | nil =>
+    simp only [List.nil_append, List.append_nil]
+    cases rest with
+    | nil => exact ⟨c, rfl⟩
+    | cons r rs =>
+      have : r = cNL := by
+        rcases hend with h | h
+        · cases h
+        · simpa using h
+      unfold lexLineLoop
+      rw [if_pos this]
+      exact ⟨c, rfl⟩
+  | cons r body ih =>
+    simp only [List.cons_append]
+    unfold lexLineLoop
+    rw [if_neg (hbody r (by simp))]
+    obtain ⟨c', hc⟩ := ih (fun x hx => hbody x (by simp [hx])) (c.adv r) (acc ++ [r])
+    exact ⟨c', by rw [hc]; simp⟩
+
+/-- `// lit` in front of an end of line lexes back to the COMMENT token -/
+theorem nextToken_comment (cls : Cls) (c : Cur) (lit rest : List Rune) (hlit : ∀ r ∈ lit, r ≠ cNL)
+    (hend : LineEnd rest) :
+    (nextToken cls c ([cSLASH, cSLASH] ++ lit ++ rest)).err = none ∧
+      (nextToken cls c ([cSLASH, cSLASH] ++ lit ++ rest)).tok.ty = .comment ∧
+      (nextToken cls c ([cSLASH, cSLASH] ++ lit ++ rest)).tok.lit = lit ∧
+      (nextToken cls c ([cSLASH, cSLASH] ++ lit ++ rest)).rest = rest := by
+  obtain ⟨c', hc⟩ := lexLineLoop_line lit hlit ((c.adv cSLASH).adv cSLASH) [] rest hend
+  simp only [List.cons_append, List.nil_append, List.append_assoc]
+  unfold nextToken
+  have h0 : operatorOf cSLASH = none := by decide
+  simp only [h0, if_true, List.head?_cons, lexLineComment, hc]
+  simp [litStep, mkTok]
+
+/-- no `*/` inside the literal -/
+def NoCloser : List Rune → Prop
+  | [] => True
+  | [_] => True
+  | a :: b :: rest => ¬ (a = cSTAR ∧ b = cSLASH) ∧ NoCloser (b :: rest)
+
+instance instDecidableNoCloser : (l : List Rune) → Decidable (NoCloser l)
+  | [] => isTrue trivial
+  | [_] => isTrue trivial
+  | a :: b :: rest => by
+    have := instDecidableNoCloser (b :: rest)
+    unfold NoCloser
+    exact inferInstance
+
+theorem lexBlockLoop_body : ∀ (lit : List Rune), NoCloser lit → ∀ (c : Cur) (acc rest : List Rune),
+    ∃ c', lexBlockLoop c acc (lit ++ cSTAR :: cSLASH :: rest) = ⟨acc ++ lit, c', rest, none⟩
+  | [], _, c, acc, rest => by
+    simp only [List.nil_append, List.append_nil]
+    unfold lexBlockLoop
+    simp
+  | [a], _, c, acc, rest => by
+    show ∃ c', lexBlockLoop c acc (a :: cSTAR :: cSLASH :: rest) = _
+    unfold lexBlockLoop
+    have : ¬ (a = cSTAR ∧ (cSTAR :: cSLASH :: rest).head? = some cSLASH) := by
+      simp; intro _; decide
+    rw [if_neg this]
+    obtain ⟨c', hc⟩ := lexBlockLoop_body [] trivial (c.adv a) (acc ++ [a]) rest
+    simp only [List.nil_append, List.append_nil] at hc
+    exact ⟨c', by rw [hc]⟩
+  | a :: b :: lit, h, c, acc, rest => by
+    obtain ⟨h1, h2⟩ := h
+    show ∃ c', lexBlockLoop c acc (a :: (b :: lit ++ cSTAR :: cSLASH :: rest)) = _
+    unfold lexBlockLoop
+    have : ¬ (a = cSTAR ∧ (b :: lit ++ cSTAR :: cSLASH :: rest).head? = some cSLASH) := by
+      simpa using h1
+    rw [if_neg this]
+    obtain ⟨c', hc⟩ := lexBlockLoop_body (b :: lit) h2 (c.adv a) (acc ++ [a]) rest
+    exact ⟨c', by rw [hc]; simp⟩
+
+/-- `/* lit */` lexes back to the BLOCK_COMMENT token -/
+theorem nextToken_blockComment (cls : Cls) (c : Cur) (lit rest : List Rune) (hlit : NoCloser lit) :
+    (nextToken cls c ([cSLASH, cSTAR] ++ lit ++ [cSTAR, cSLASH] ++ rest)).err = none ∧
+      (nextToken cls c ([cSLASH, cSTAR] ++ lit ++ [cSTAR, cSLASH] ++ rest)).tok.ty = .blockComment ∧
+      (nextToken cls c ([cSLASH, cSTAR] ++ lit ++ [cSTAR, cSLASH] ++ rest)).tok.lit = lit ∧
+      (nextToken cls c ([cSLASH, cSTAR] ++ lit ++ [cSTAR, cSLASH] ++ rest)).rest = rest := by
+  obtain ⟨c', hc⟩ := lexBlockLoop_body lit hlit ((c.adv cSLASH).adv cSTAR) [] rest
+  simp only [List.cons_append, List.nil_append, List.append_assoc]
+  unfold nextToken
+  have h0 : operatorOf cSLASH = none := by decide
+  have h1 : ¬ ((some cSTAR : Option Rune) = some cSLASH) := by decide
+  simp only [h0, if_true, List.head?_cons, h1, if_false, lexBlockComment, hc]
+  simp [litStep, mkTok]
+
+/-- `| lit` in front of an end of line lexes back to the DESCRIPTION token, provided the literal does
+not start with white space (the lexer strips it) and `' '` is white space for the classifier -/
+theorem nextToken_description (cls : Cls) (hsp : cls.isSpace cSP = true) (c : Cur)
+    (lit rest : List Rune) (hlit : ∀ r ∈ lit, r ≠ cNL)
+    (hhead : ∀ r, lit.head? = some r → cls.isSpace r = false) (hend : LineEnd rest) :
+    (nextToken cls c ([cPIPE, cSP] ++ lit ++ rest)).err = none ∧
+      (nextToken cls c ([cPIPE, cSP] ++ lit ++ rest)).tok.ty = .description ∧
+      (nextToken cls c ([cPIPE, cSP] ++ lit ++ rest)).tok.lit = lit ∧
+      (nextToken cls c ([cPIPE, cSP] ++ lit ++ rest)).rest = rest := by
+  simp only [List.cons_append, List.nil_append, List.append_assoc]
+  unfold nextToken
+  have h0 : operatorOf cPIPE = none := by decide
+  have h1 : ¬ (cPIPE = cSLASH) := by decide
+  have h2 : ¬ (cPIPE = cQUOTE) := by decide
+  simp only [h0, h1, h2, if_false, if_true]
+  -- skipWhitespace reads exactly the one space
+  have hskip : skipWhitespace cls (c.adv cPIPE) (cSP :: (lit ++ rest)) =
+      ((c.adv cPIPE).adv cSP, lit ++ rest) := by
+    unfold skipWhitespace
+    have : cls.isSpace cSP = true ∧ cSP ≠ cNL := ⟨hsp, by decide⟩
+    rw [if_pos this]
+    cases hl : lit ++ rest with
+    | nil => rfl
+    | cons r rs =>
+      unfold skipWhitespace
+      have : ¬ (cls.isSpace r = true ∧ r ≠ cNL) := by
+        cases lit with
+        | nil =>
+          simp only [List.nil_append] at hl
+          rcases hend with h | h
+          · rw [h] at hl; cases hl
+          · rw [hl] at h; simp at h; simp [h]
+        | cons a as =>
+          simp only [List.cons_append] at hl
+          cases hl
+          have := hhead r rfl
+          simp [this]
+      rw [if_neg this]
+  obtain ⟨c', hc⟩ := lexLineLoop_line lit hlit ((c.adv cPIPE).adv cSP) [] rest hend
+  simp only [lexDescriptionLine, hskip, hc]
+  simp [litStep, mkTok]
+
+/-- an operator character lexes to its operator token -/
+theorem nextToken_operator (cls : Cls) (c : Cur) (r : Rune) (ty : TokenType)
+    (h : operatorOf r = some ty) (rest : List Rune) :
+    (nextToken cls c (r :: rest)).err = none ∧ (nextToken cls c (r :: rest)).tok.ty = ty ∧
+      (nextToken cls c (r :: rest)).tok.lit = [r] ∧ (nextToken cls c (r :: rest)).rest = rest := by
+  unfold nextToken
+  simp [h, mkTok]
+
+/-- white space (other than a newline) before a token is skipped -/
+theorem nextToken_skip_space (cls : Cls) (c : Cur) (r : Rune) (hs : cls.isSpace r = true)
+    (hop : operatorOf r = none) (h1 : r ≠ cSLASH) (h2 : r ≠ cQUOTE) (h3 : r ≠ cPIPE) (h4 : r ≠ cNL)
+    (rest : List Rune) : nextToken cls c (r :: rest) = nextToken cls (c.adv r) rest := by
+  conv => lhs; unfold nextToken
+  simp [hop, h1, h2, h3, h4, hs]
+
 end J5V.Bcl
